@@ -394,6 +394,13 @@ def make_callback(cb):
             def two(extra, xk):
                 core_pos(xk)
             f = functools.partial(two, 1.5)
+        elif form == "mixed_sig":
+            # the magic name appears in the signature next to a required
+            # positional parameter: the documented test is 'the signature
+            # is exactly (intermediate_result)', so this one gets the point
+            def mixed(xk, intermediate_result=None):
+                core_pos(xk)
+            f = mixed
         elif form == "other_name":
             # a keyword-capable parameter whose name is not the magic one
             def other(result):
@@ -403,14 +410,18 @@ def make_callback(cb):
             f = core_pos
     if form == "unhashable":
         f = _unhashable(f)
+    if form == "falsy":
+        f = _unhashable(f, [])
     if cb.get("returns") is not None:
         f = _returning(f, cb["returns"])
     return f, state
 
 
-def _unhashable(f):
+def _unhashable(f, content=(1, 2, 3)):
     """A perfectly valid callback object that cannot be hashed (a list
-    subclass with __call__, like a default dataclass with eq=True)."""
+    subclass with __call__, like a default dataclass with eq=True); with an
+    empty content it is also FALSE in a boolean context (a recorder that has
+    recorded nothing yet)."""
     params = list(inspect.signature(f).parameters)
 
     if params == ["intermediate_result"]:
@@ -421,7 +432,7 @@ def _unhashable(f):
         class ListCB(list):
             def __call__(self, xk):
                 return f(xk)
-    return ListCB([1, 2, 3])
+    return ListCB(list(content))
 
 
 RETURNS = {"True": True, "np_true": np.bool_(True), "one": 1, "str": "stop",
